@@ -40,7 +40,13 @@ PLACEMENTS = {
     "P13": ("VEVENT", ['DTEND;TZID="%s":20240601T130000' % W], {W}),
     # an empty TZID parameter is a TZID parameter (no VTIMEZONE can have the id "", a VTIMEZONE without TZID does not)
     "P14": ("VJOURNAL", ["DTSTART;TZID=:20240601T100000"], {""}),
+    # TZID parameters on values that are not date-times (a DATE, a PERIOD): still TZID parameters of the calendar
+    "P15": ("VEVENT", ["DTSTART;VALUE=DATE;TZID=%s:20240601" % B], {B}),
+    "P16": ("VTODO", ["DUE;VALUE=DATE;TZID=%s:20240601" % D], {D}),
+    "P17": ("VEVENT", ["X-DAY;VALUE=DATE;TZID=%s:20240601" % C], {C}),
+    "P20": ("VEVENT", ["RDATE;VALUE=PERIOD;TZID=%s:20240601T100000/PT1H" % A], {A}),
 }
+OUTSIDE_SUBSETS = ("P13", "P14", "P15", "P16", "P17", "P20")
 PRESETS = ("tzA", "tzA2", "tzT", "tzC", "tzX", "tzNoId")
 # outside the subset enumeration: "tzW" (id that needs quoting), "tzBn" (VTIMEZONE of B nested inside an unknown component)
 
@@ -168,6 +174,14 @@ def build_api(placements, presets):
             c.add("dtend", datetime(2024, 6, 1, 13), parameters={"TZID": W})
         elif p == "P14":
             c.add("dtstart", datetime(2024, 6, 1, 10), parameters={"TZID": ""})
+        elif p == "P15":
+            c.add("dtstart", date(2024, 6, 1), parameters={"TZID": B})
+        elif p == "P16":
+            c.add("due", date(2024, 6, 1), parameters={"TZID": D})
+        elif p == "P17":
+            c.add("x-day", vDDDTypes(date(2024, 6, 1)), parameters={"TZID": C})
+        elif p == "P20":
+            c.add("rdate", [(datetime(2024, 6, 1, 10, tzinfo=za), timedelta(hours=1))])
     return cal
 
 
@@ -285,7 +299,7 @@ def run(ctx):
     ctx.bounds = {"placements": len(PLACEMENTS), "max_placements": maxp, "vtimezone_presets": list(PRESETS)}
     ctx.assumptions += ["the used set is the set of TZID *parameters*; a list value built from several zones carries one TZID (C02)",
                         "for ids with duplicate pre-existing VTIMEZONEs 'exactly one' is read as 'none added'"]
-    pl = [p for p in PLACEMENTS if p not in ("P13", "P14")]
+    pl = [p for p in PLACEMENTS if p not in OUTSIDE_SUBSETS]
 
     def subsets(items, k):
         for n in range(0, k + 1):
@@ -319,6 +333,11 @@ def run(ctx):
             for how in ("parse", "api"):
                 for placements in (("P14",), ("P1", "P14")):
                     for presets in ((), ("tzNoId",), ("tzA", "tzNoId"), ("tzNoId", "tzA")):
+                        yield ("c", provider, how, placements, presets, WINDOW)
+        for provider in env.PROVIDERS:
+            for how in ("parse", "api"):
+                for placements in (("P15",), ("P16",), ("P17",), ("P20",), ("P1", "P15"), ("P15", "P16", "P17"), ("P16", "P20", "P4")):
+                    for presets in ((), ("tzA",), ("tzC", "tzT")):
                         yield ("c", provider, how, placements, presets, WINDOW)
         # the window bounds given as naive / aware datetimes instead of dates
         for provider in env.PROVIDERS:
